@@ -696,9 +696,48 @@ def sweep(env, cases, label):
     return minabove
 
 
+def own_constant_tuples(env):
+    """key -> argument tuples built from the string constants that occur in the element's OWN
+    backing function (a branch keyed on a character of a string argument is reached only by
+    strings holding that character), each crossed with degenerate companions at the other
+    positions (empty list, empty lazy list, empty string, 0)."""
+    import ast
+    import os
+    try:
+        with open(os.path.join(V.REPO, "vyxal", "elements.py"), encoding="utf-8") as f:
+            tree = ast.parse(f.read())
+    except (OSError, SyntaxError):
+        return {}
+    consts = {}
+    for n in tree.body:
+        if isinstance(n, ast.FunctionDef):
+            doc = ast.get_docstring(n)
+            cs = [c.value for c in ast.walk(n) if isinstance(c, ast.Constant) and isinstance(c.value, str)
+                  and 0 < len(c.value) <= 8 and c.value != doc]
+            consts[n.name] = list(dict.fromkeys(cs))[:6]
+    companions = [("list", []), ("lazy", []), ("str", ""), ("int", 0), ("list", [("int", 1), ("int", 2)])]
+    out = {}
+    for e in env.tables["elements"]:
+        k, fn = e["arity"], e.get("fn") or ""
+        if not (1 <= k <= 3) or fn not in consts:
+            continue
+        tuples = []
+        for c in consts[fn]:
+            for text in (c, "x=" + c, c + "," + c):
+                for pos in range(k):
+                    for comp in companions:
+                        t = [comp] * k
+                        t[pos] = ("str", text)
+                        tuples.append(t)
+        out[e["key"]] = tuples[:60]
+    return out
+
+
 def element_cases(env, E):
     per_key = env.budget(40, 320)
     cases, skipped = [], {}
+    own = own_constant_tuples(env)
+    env.note("elements_with_own_constant_tuples", len(own))
     for key, (text, k) in E.elements.items():
         if key in SKIP:
             skipped[key] = SKIP[key]
@@ -708,7 +747,7 @@ def element_cases(env, E):
         while len(tuples) < (per_key if k else 1):
             tuples.append([gen_value(env.rng) for _ in range(k)])
         seen = set()
-        for args in tuples[:per_key]:
+        for args in tuples[:per_key] + own.get(key, []):
             c = V.canon(args)
             if c in seen:
                 continue
